@@ -275,7 +275,7 @@ def _rc_jobs(tier):
             s = "".join(ops)
             if "r" not in s or s[0] == "r" and tier == "quick" and W > 2:
                 continue
-            if tier == "quick" and s.count("r") > 2:
+            if tier == "quick" and (s.count("r") > 2 or W == 3 and s not in ("aaar", "arar")):
                 continue
             jobs.append({"W": W, "ops": s})
     return jobs
@@ -295,11 +295,11 @@ ENC = [
 ]
 STUBS = [
     "InterArrival.compute_deltas -> None; OveruseDetector.state -> arbitrary BandwidthUsage at every call; AimdRateControl.update (orchestration harness only) -> arbitrary estimate in 0..2^20-1 or None",
-    "float arithmetic: quotients of integers are exact rationals (SymRatio); int()/ceil()/round() of them are evaluated exactly, which equals the IEEE result for the operand ranges used (DESIGN 2.2 conversion-site contracts, sites listed in evidence)",
+    "float arithmetic: quotients of integers are exact rationals (SymRatio); int()/ceil()/round() of them are evaluated exactly on the rational. For a single correctly-rounded division of integers < 2^53 followed by ceil/round this equals the IEEE result unless the quotient is within one ulp of an integer (not possible for the integer/constant quotients used by RateCounter.rate and the packets-per-frame count); for the chained quotient in _near_max_rate_increase the IEEE result may differ by one unit at exact-quotient boundaries, which the asserted bounds (>= 4000, >= 0) do not depend on. Sites are listed in evidence",
 ]
 
 HARNESSES = {
-    "ratecounter": Harness("ratecounter", h_ratecounter, _rc_jobs, style="BMC", bounds="window W in {2,3,4} (quick) / {2,3,4,5,8} ms, every add/rate sequence of length 4 (5), non-decreasing symbolic times with gaps 0..2W, sizes 0..1500", encoded=ENC, stubs=STUBS, outside=["W = 1000 as deployed (the code is parametric in the window size)"], twin="rate-queried", opts={"samples": 1}),
+    "ratecounter": Harness("ratecounter", h_ratecounter, _rc_jobs, style="BMC", bounds="window W = 2 (every add/rate sequence of length 4 with <=2 queries) and W = 3 (two sequences) in the quick tier / W in {2,3,4,5,8} ms, every add/rate sequence of length 4 (5), non-decreasing symbolic times with gaps 0..2W, sizes 0..1500", encoded=ENC, stubs=STUBS, outside=["W = 1000 as deployed (the code is parametric in the window size)"], twin="rate-queried", opts={"samples": 1}),
     "aimd-near-max": Harness("aimd-near-max", h_near_max, lambda tier: [{}], style="STEP", bounds="current_bitrate 0..2^32-1, rtt 0..10000 ms, elapsed 0..2^20 ms", encoded=ENC, stubs=STUBS, twin="near-max-computed"),
     "aimd-clamp": Harness("aimd-clamp", h_clamp, lambda tier: [{}], style="STEP", bounds="current 0..2^32-1, new 0..2^40, throughput 0..2^32-1", encoded=ENC, stubs=STUBS, twin="clamped"),
     "aimd-update": Harness("aimd-update", h_aimd_update, lambda tier: [{"steps": s, "avg": v} for s in ((1, 2) if tier == "quick" else (1, 2, 3)) for v in (None, 1000.0)], style="BMC from an arbitrary controller state", bounds="1..2 (quick) / 1..3 consecutive update() calls from an arbitrary controller state: current_bitrate/latest measurement 0..2^32-1, any state/near_max/initialised flags, measurement present or None, gaps 0..5000 ms; avg_max_bitrate_kbps None or 1000.0 (var 0.4)", encoded=ENC + ["aiortc.rate:AimdRateControl.update"], stubs=STUBS + ["AimdRateControl._multiplicative_rate_increase (pow) -> arbitrary int in 1000..2^32-1; _additive_rate_increase -> arbitrary int in 0..2^40 (its contract, result >= 0 and no exception, is the aimd-near-max harness); _update_max_throughput_estimate (float EWMA) -> sets avg to 1000.0; round(0.85*T): any integer within 1/2 + half-ulp of the exact rational product (over-approximates IEEE rounding)"], outside=["float state avg/var_max_bitrate_kbps other than None/1000.0 (sqrt of symbolic floats)"], twin="updated", opts={"lia": True}),
